@@ -5,8 +5,13 @@ mod k3;
 mod k4;
 mod tree;
 mod k5;
+mod k6;
+mod inputs;
 mod planners;
+mod refdft;
+mod snum;
 mod real;
+mod s06;
 mod s07;
 mod s09;
 mod report;
@@ -28,9 +33,12 @@ fn main() {
         "k3" => k3::run(rest),
         "k4" => k4::run(rest),
         "k5" => k5::run(rest),
+        "k6" => k6::run(rest),
         "s04" => s04::run(rest),
+        "s06" => s06::run(rest),
         "s07" => s07::run(rest),
         "s09" => s09::run(rest),
+        "snum" => snum::run(rest),
         other => {
             eprintln!("unknown subcommand {}", other);
             std::process::exit(2);
